@@ -82,6 +82,23 @@ STUBS = [
 _PKGS = ('edb.server._rust_native', 'edb.server.pgproto')
 
 
+class UUID(_uuid.UUID):
+    """edb.common.turbo_uuid.UUID stand-in (constructor as in the .pyi)."""
+
+    def __init__(self, inp):
+        if isinstance(inp, (bytes, bytearray)):
+            _uuid.UUID.__init__(self, bytes=bytes(inp))
+        else:
+            _uuid.UUID.__init__(self, str(inp))
+
+    def __reduce__(self):
+        return (UUID, (self.bytes,))
+
+
+UUID.__module__ = 'edb.common.turbo_uuid'
+UUID.__qualname__ = 'UUID'
+
+
 class _Finder(importlib.abc.MetaPathFinder, importlib.abc.Loader):
     def find_spec(self, name, path, target=None):
         if name in STUBS or name == 'graphql' or name.startswith('graphql.'):
@@ -93,12 +110,6 @@ class _Finder(importlib.abc.MetaPathFinder, importlib.abc.Loader):
     def create_module(self, spec):
         m = _Any(spec.name)
         if spec.name == 'edb.common.turbo_uuid':
-            class UUID(_uuid.UUID):
-                def __init__(self, inp):
-                    if isinstance(inp, (bytes, bytearray)):
-                        _uuid.UUID.__init__(self, bytes=bytes(inp))
-                    else:
-                        _uuid.UUID.__init__(self, str(inp))
             m.UUID = UUID
         return m
 
